@@ -457,7 +457,20 @@ func (e *env) scenario1(seed uint64, idx int) {
 			}
 			send(id, readResp(id, c.marker))
 		case pFault:
-			send(id, &ua.ServiceFault{ResponseHeader: hdr(id, serial, ua.StatusBadNodeIDUnknown)})
+			// the RequestHandle of a response is not what routes it: in half of the faults it names another
+			// pending request (or nothing at all); the request id of the sequence header decides
+			handle := id
+			if order.Bool() {
+				handle = 0x5eed0000 + uint32(order.Intn(100))
+				for _, d := range todo[ti+1:] {
+					if d.plan == pAnswer || d.plan == pLate || d.plan == pDrop {
+						handle = pending[d.marker]
+						break
+					}
+				}
+				r.Hit("peer:fault-with-foreign-handle")
+			}
+			send(id, &ua.ServiceFault{ResponseHeader: hdr(handle, serial, ua.StatusBadNodeIDUnknown)})
 		case pWrongType:
 			send(id, &ua.BrowseResponse{ResponseHeader: hdr(id, serial, ua.StatusOK)})
 		case pNotResp:
@@ -597,6 +610,14 @@ func (e *env) scenario1(seed uint64, idx int) {
 		}
 		if c.err == nil && !c.handlerRan && !dupExpected[c.k] {
 			r.Fail(caseName, "", fmt.Sprintf("caller %d (plan %s) returned without error although its handler was never given a response", c.k, planNames[c.plan]))
+		}
+		if c.plan == pFault && c.err != ua.StatusBadNodeIDUnknown && c.err != ua.StatusBadTimeout && !dupExpected[c.k] &&
+			!(c.err != nil && strings.Contains(c.err.Error(), "duplicate handler registration")) {
+			r.Fail(caseName, "", fmt.Sprintf("caller %d was answered with a ServiceFault (BadNodeIDUnknown) under its request id and returned %v", c.k, c.err))
+		}
+		if (c.plan == pAnswer || c.plan == pDup) && c.err != nil && c.err != ua.StatusBadTimeout && !dupExpected[c.k] &&
+			!strings.Contains(c.err.Error(), "duplicate handler registration") {
+			r.Fail(caseName, "", fmt.Sprintf("caller %d was answered with its own good response and returned an error that is not its own: %v", c.k, c.err))
 		}
 		if c.plan == pNotResp && c.err == nil {
 			r.Fail(caseName, "", fmt.Sprintf("caller %d was answered with a message that is not a response and got no error", c.k))
@@ -1112,7 +1133,7 @@ func main() {
 		}
 	}
 	for _, b := range []string{"label:setctr", "label:nextid", "label:register", "label:pop", "label:deliver", "label:recv", "label:abandon",
-		"outcome:ok", "outcome:timeout", "outcome:cancelled", "outcome:wrong-type-error", "outcome:refused-duplicate", "peer:unsolicited", "peer:late-response", "plan:notresponse", "scenario:forced-late-handover", "peer:multi-chunk", "peer:interleaved-multi-chunk"} {
+		"outcome:ok", "outcome:timeout", "outcome:cancelled", "outcome:wrong-type-error", "outcome:refused-duplicate", "peer:unsolicited", "peer:late-response", "plan:notresponse", "scenario:forced-late-handover", "peer:multi-chunk", "peer:interleaved-multi-chunk", "peer:fault-with-foreign-handle"} {
 		if r.Distribution[b] == 0 {
 			r.Unreached = append(r.Unreached, b)
 		}
